@@ -1,9 +1,13 @@
 #!/bin/sh
-# run every stored seed against the check of its own property (scratch worktrees; never touches /repo); prints one line per seed
+# run every stored seed against the check of its own property (scratch worktrees; never touches /repo); prints one line per seed.
+# $1 = number of seeds run in parallel (default 6)
 cd /verif
-for d in seeded/*/; do
-  s=$(basename $d); c=$(python3 -c "import json;print(json.load(open('$d/meta.json'))['property'])")
-  if grep -q '"status": "obsolete"' $d/meta.json; then echo "$s $c obsolete (see meta.json)"; continue; fi
+J=${1:-6}
+one() {
+  d=$1; s=$(basename $d); c=$(python3 -c "import json;print(json.load(open('$d/meta.json'))['property'])")
+  if grep -q '"status": "obsolete"' $d/meta.json; then echo "$s $c obsolete (see meta.json)"; return; fi
   n=$(tools/run_seed.sh $s $c 2>/dev/null | grep -a -c "^VIOLATION")
   echo "$s $c violations=$n"
-done
+}
+if [ "$1" = "--one" ]; then one $2; exit 0; fi
+ls -d seeded/*/ | xargs -P $J -n 1 sh tools/run_all_seeds.sh --one
